@@ -39,7 +39,7 @@ THEOREMS = [
     "BeyondVerif.C20.builtin_links_have_methods",
     "BeyondVerif.C20.small_named_forests_exact",
     "BeyondVerif.C20W.pentagon_not_shortest",
-    "BeyondVerif.C20W.topo_ctor_alone_unresolvable",
+    "BeyondVerif.C20W.topo_ctor_instance_only_regression",
     "BeyondVerif.C20W.subclass_registration_unresolvable",
 ]
 LEVEL_TEXT = ("Lean theorems over the routing model: for every insertion history (any graph, order, orientation) each returned path is a chain of "
@@ -59,8 +59,8 @@ LEVEL_TEXT = ("Lean theorems over the routing model: for every insertion history
               "(builtin_links_have_methods, decide); registrations under new names change no lookup between old names (fresh_names_keep_methods); all forests on <=3 "
               "nodes under every assignment of (shared) names route to a nearest node of the name (small_named_forests_exact, kernel decide). "
               "Exact differential correspondence of both models with the real Node / Orientation / Center classes on exhaustive/random histories.")
-LEVEL_NOTE = ("shortest-chain clause for cyclic graphs is false of the code (known finding, pinned); a bare TopocentricOrientation stores its link method on the "
-              "instance only (known finding, kernel-checked witness); models hand-written, tied by correspondence, registration sites and built-in tables regenerated "
+LEVEL_NOTE = ("shortest-chain clause for cyclic graphs is false of the code (known finding, pinned); the bare TopocentricOrientation constructor registers on the base "
+              "class since the fix of C20-topocentric-ctor-instance-only (regression witness kept); models hand-written, tied by correspondence, registration sites and built-in tables regenerated "
               "from the source; Lean kernel + propext/Classical.choice/Quot.sound")
 TECHNIQUE = "Lean 4 proof by induction over insertion / registration histories + kernel decide on tables and sites regenerated from the source; exact model/implementation correspondence"
 TRUSTED = [
@@ -91,7 +91,6 @@ OPEN = [
     "regenerated decide-theorem builtin_links_have_methods, the two are not composed into one statement inside Lean",
 ]
 NOT_COVERED = ["'a shortest chain in general' is false of the current code (known finding C20-cyclic-nonshortest)",
-               "a TopocentricOrientation constructed directly is linked but unresolvable from other orientations (known finding C20-topocentric-ctor-instance-only)",
                "which of several live nodes of ONE name a conversion designates: the code routes to the nearest node of the name and the newest registration of a key shadows the older one; "
                "numerical results of conversions that pass through such a name (analytical and JPL 'Sun' both alive; a frame hanging behind a station that was re-created under its name) "
                "are not claimed - the property speaks of registrations under new names"]
@@ -782,7 +781,7 @@ def check_registry_scenarios(out, ctx, rng, big):
     beyond.frames.lagrange), each in a forked child under a step / time / memory bound: harness/c20_registry.py"""
     from harness import c20_registry as R
     scen = [(nm, ops, "registry-fixed") for nm, ops in R.fixed_scenarios()]
-    scen.append(R.topo_direct_scenario() + ("registry-known",))
+    scen.append(R.topo_direct_scenario() + ("registry-regression",))   # fixed finding C20-topocentric-ctor-instance-only: family link-method-unresolvable:topo_direct
     for i in range(60 if ctx.thorough else (20 if big else 8)):
         scen.append((f"random{i}", R.random_scenario(rng, rng.randint(4, 12 if big else 9)), "registry-random"))
     tot = {}
